@@ -1,4 +1,5 @@
 """C07 — alpha-aware resizing: pipeline typestate of Resizer::resample_convolution."""
+import re
 from ..cfg import Dom, find_path, reachable_from
 from ..engines import alpha_rules, simd_rules
 from ..facts import CheckError
@@ -22,7 +23,24 @@ def _has(e, pred):
 
 
 def _mentions_param(e, name):
-    return _has(e, lambda x: x[0] == "param" and x[2] == name)
+    """the parameter `name`, or the field `name` of a parameter (options carried in a struct)"""
+    return _has(e, lambda x: (x[0] == "param" and x[2] == name) or
+                (x[0] == "field" and x[2] == name and isinstance(x[1], tuple) and x[1]
+                 and x[1][0] in ("param", "deref", "ref")))
+
+
+def _has_flag(prog, f, name):
+    """does f receive a flag of that name (a parameter, or a field of a struct parameter)?"""
+    for i in range(1, f.arg_count + 1):
+        if f.local_name(i) == name:
+            return True
+        ty = re.sub(r"^(&(?:'\w+ )?(?:mut )?)+", "", (f.local_ty(i) or "").strip())
+        base = re.sub(r"<.*$", "", ty)
+        for k, a in prog.adts.items():
+            if (a["name"] == base or k.endswith("::" + base)) and len(a["variants"]) == 1:
+                if any(fl[0] == name for fl in a["variants"][0]["fields"]):
+                    return True
+    return False
 
 
 def pipeline(rep, prog, rule):
@@ -60,6 +78,9 @@ def pipeline(rep, prog, rule):
                         for c, v in facts)
     if has_use_alpha and has_supported:
         rep.ok(rule, "gate", mul.at, "multiply dominated by use_alpha && is_supported")
+    elif not has_use_alpha and not _has_flag(prog, f, "use_alpha"):
+        rep.unk(rule, "gate", mul.at, "resample_convolution has no `use_alpha` parameter or field: "
+                "which flag gates the alpha pipeline is not determined")
     elif not has_use_alpha:
         rep.bad(rule, "gate|use_alpha", mul.at,
                 "multiply_alpha_typed is not dominated by the `use_alpha == true` edge: alpha "
